@@ -796,5 +796,11 @@ def rfwd_forwarding(chk: Check) -> None:
     shared.forwarding_rule(chk, "C05.FWD", ('engine/phases/', 'engine/recorder.py:', 'checks.py:', 'generation/case.py:Case.validate_response', 'generation/case.py:Case.call_and_validate', 'cli/commands/run/__init__.py:run'), "failure / error reporting chain and CLI options", 8)
 
 
+def o10_drain(chk: Check) -> None:
+    from . import shared
+
+    shared.drain_before_leave_rule(chk, "C05.O10")
+
+
 def rules(tier: str) -> list:  # type: ignore[type-arg]
-    return [o1_thread_targets, o2_run_test_ladder, o3_failure_recording, o3b_run_checks, o4_status_folding, o5_exit_code, o6_marks, o7_plumbing, o8_statistic_accumulates, o9_failure_counter_sites, rfwd_forwarding]
+    return [o1_thread_targets, o2_run_test_ladder, o3_failure_recording, o3b_run_checks, o4_status_folding, o5_exit_code, o6_marks, o7_plumbing, o8_statistic_accumulates, o9_failure_counter_sites, o10_drain, rfwd_forwarding]
